@@ -29,6 +29,7 @@
  * @ingroup bc
  */
 
+#include <limits.h>
 #include <string.h>
 
 #include "relic_core.h"
@@ -46,6 +47,10 @@ int bc_aes_cbc_enc(uint8_t *out, size_t *out_len, const uint8_t *in,
 	cipherInstance cipher_inst;
 
 	int pad_len = 16 - (in_len - 16 * (in_len/16));
+	/* The cipher layer counts octets in an int. */
+	if (in_len > (size_t)INT_MAX - 16) {
+		return RLC_ERR;
+	}
 	if (*out_len < in_len + pad_len) {
 		return RLC_ERR;
 	}
@@ -74,6 +79,10 @@ int bc_aes_cbc_dec(uint8_t *out, size_t *out_len, const uint8_t *in,
 	cipherInstance cipher_inst;
 	int pad_len;
 
+	/* The cipher layer counts octets in an int. */
+	if (in_len > (size_t)INT_MAX) {
+		return RLC_ERR;
+	}
 	if (*out_len < in_len) {
 		return RLC_ERR;
 	}
